@@ -26,6 +26,12 @@
                                  it can never sleep without a deadline; the tail of the function is regenerated from the
                                  source (the statement after the timed wait must be `return try_pop_n<false,...>(callback, num);`
                                  and the last one of the body, else the translator stops)
+     c02_entry_points_forward_flags, c02_cores_forward_role, c02_no_lost_wakeup_any_entry, c02_no_deadlock_any_entry
+                                 public overloads: a call written through the callback / value / pointer / iterator overload or
+                                 an overload without template arguments (entry_ok) runs the core operation with exactly the
+                                 flags written - every forwarded template-argument list is regenerated from the source - so
+                                 the two schedule-quantified theorems hold for client programs (lists of calls) whose
+                                 declared flags satisfy usage_ok
      c02_wake_batch_tso, c02_wake_single_tso, c02_wake_batch_without_fence_refuted
                                  the same waker / waiter race on an explicit store-buffer (TSO) machine, every execution, with
                                  the fences regenerated from the source
@@ -38,7 +44,7 @@
    versions compared through 16-bit words, as the code does) admits the ABA "waiter pre-empted for exactly 2^15 rounds". *)
 From Coq Require Import ZArith List Bool.
 Require Import Verif.Gen.Gen_bounded_queue Verif.Conc.Machine Verif.BQ.BQModel Verif.BQ.BQProofs.
-Require Import Verif.BQ.BQInvDefs Verif.BQ.BQInvStep Verif.BQ.BQInvMain Verif.BQ.BQInvThm Verif.BQ.BQWake Verif.BQ.BQFifo Verif.BQ.BQTry Verif.BQ.BQDead Verif.BQ.BQTimed.
+Require Import Verif.BQ.BQInvDefs Verif.BQ.BQInvStep Verif.BQ.BQInvMain Verif.BQ.BQInvThm Verif.BQ.BQWake Verif.BQ.BQFifo Verif.BQ.BQTry Verif.BQ.BQDead Verif.BQ.BQTimed Verif.BQ.BQEntry.
 Import ListNotations.
 Local Open Scope Z_scope.
 
@@ -108,6 +114,36 @@ Print Assumptions c02_timed_pop_wait_then_try_pop_n.
 Theorem c02_timed_pop_passes_num : forall n, until_try_num n = n.
 Proof. exact bq_until_try_num. Qed.
 Print Assumptions c02_timed_pop_passes_num.
+
+(* public entry points: lower c = the core operation call c really runs (flags after every forwarding wrapper, regenerated) *)
+Theorem c02_entry_points_forward_flags : forall c, entry_ok c = true -> lower c = c_op c.
+Proof. exact bq_lower_faithful. Qed.
+Print Assumptions c02_entry_points_forward_flags.
+
+Theorem c02_cores_forward_role : cores_ok = true.
+Proof. exact bq_cores_ok. Qed.
+Print Assumptions c02_cores_forward_role.
+
+Theorem c02_no_lost_wakeup_any_entry : forall k cp s, calls_ok cp = true -> usage_ok k (declared cp) = true ->
+  Reach k (lower_progs cp) s -> small s ->
+  forall t th sl x, nth_error (threads s) t = Some th -> parkedOn s th sl x -> ver (get_slot s sl) = x ->
+  waker_on_its_way s sl x.
+Proof. exact bq_client_no_lost_wakeup. Qed.
+Print Assumptions c02_no_lost_wakeup_any_entry.
+
+Theorem c02_no_deadlock_any_entry : forall k cp s, calls_ok cp = true -> usage_ok k (declared cp) = true ->
+  balanced (declared cp) -> blocking_only (declared cp) -> one_sided_threads (declared cp) ->
+  Reach k (lower_progs cp) s -> small s -> all_done s = false -> exists t, (t < length (threads s))%nat /\ step s t <> None.
+Proof. exact bq_client_no_deadlock. Qed.
+Print Assumptions c02_no_deadlock_any_entry.
+
+Example c02_any_entry_example :
+  let spinwake := {| conc := true; fwait := false; fwake := true |} in
+  let sleeper := {| conc := true; fwait := true; fwake := false |} in
+  let cp := [[{| c_entry := EnIt; c_op := OPushN spinwake [1; 2] |}];
+             [{| c_entry := EnVal; c_op := OPop sleeper |}; {| c_entry := EnPtr; c_op := OPop sleeper |}]] in
+  calls_ok cp = true /\ usage_ok 1 (declared cp) = true /\ lower_progs cp = declared cp.
+Proof. exact bq_client_example. Qed.
 
 Theorem c02_wake_tests_match_waiter_bit : forall v w,
   block_no_waiter (word16 v w) = negb w /\ xchg_no_waiter (word16 v w) = negb w /\ wakeup_no_waiter (word16 v w) = negb w /\
